@@ -211,7 +211,7 @@ func sizeBucket(n int) string {
 func main() {
 	c := vh.Start("C07")
 	defer c.Finish()
-	c.Res.Rule = "case = one data path (meshconn, exit, forward, shellpty, shellout, file) x a script of write / read-block sizes; " +
+	c.Res.Rule = "case = one data path (meshconn, meshfwd, shellin, exit, forward, shellpty, shellout, file) x a script of write / read-block sizes; " +
 		"observed = STREAM_DATA payload lengths on the peer link, bytes delivered after per-frame decryption, equality with the input; " +
 		"non-trivial = at least one byte written; distinct = distinct (path, script)"
 
@@ -343,9 +343,12 @@ func (e *env) runAll() {
 	// meshConn.Write through a real tunnel (deterministic, modelled)
 	e.runMeshConn("meshconn", sweepSizes(c.Rand, 16356, c.N(8, 200), true))
 	e.runMeshConn("meshfwd", sweepSizes(c.Rand, 16356, c.N(4, 100), false))
+	e.runShellIn([]int{1, 4096, 16355})
+	e.runShellIn([]int{16356})
+	e.runShellIn(sweepSizes(c.Rand, 16355, c.N(3, 60), false))
 
 	// scripted sender loops
-	bufOf := map[string]int{"exit": 16356, "forward": 16356, "shellpty": 16384, "shellout": 16384, "file": 16256}
+	bufOf := map[string]int{"exit": 16356, "forward": 16356, "shellpty": 16355, "shellout": 16355, "file": 16256}
 	for _, p := range []string{"exit", "forward", "shellpty", "shellout", "file"} {
 		n := bufOf[p]
 		for _, s := range sweepSizes(c.Rand, n, c.N(4, 150), p == "exit") {
@@ -380,6 +383,8 @@ func (e *env) runOne(r caseRec) {
 		switch {
 		case r.Layer == "L1" && (r.Path == "meshconn" || r.Path == "meshfwd"):
 			e.runMeshConn(r.Path, r.Blocks)
+		case r.Layer == "L1" && r.Path == "shellin":
+			e.runShellIn(r.Blocks)
 		case r.Layer == "L1":
 			e.runScripted(r)
 		default:
@@ -427,14 +432,38 @@ func (p *tcpPeer) accept() (net.Conn, error) {
 	}
 }
 
-// readExactly reads n bytes (or until error / 60 s without completion).
+// readExactly reads n bytes (or until error / 20 s without progress on the
+// whole amount; the bound is a liveness bound only, data arrives within
+// milliseconds).
 func readExactly(r io.Reader, n int, setDeadline func(time.Time) error) ([]byte, error) {
 	if setDeadline != nil {
-		setDeadline(time.Now().Add(60 * time.Second))
+		setDeadline(time.Now().Add(20 * time.Second))
 	}
 	buf := make([]byte, n)
 	got, err := io.ReadFull(r, buf)
 	return buf[:got], err
+}
+
+// readChunked reads n bytes with caller buffers of the given sizes in turn
+// (exercises the receiver's own buffering of partially consumed messages).
+func readChunked(r io.Reader, n int, setDeadline func(time.Time) error, sizes []int) ([]byte, error) {
+	if setDeadline != nil {
+		setDeadline(time.Now().Add(20 * time.Second))
+	}
+	var out []byte
+	for i := 0; len(out) < n; i++ {
+		sz := sizes[i%len(sizes)]
+		if sz > n-len(out) {
+			sz = n - len(out)
+		}
+		buf := make([]byte, sz)
+		k, err := r.Read(buf)
+		out = append(out, buf[:k]...)
+		if err != nil {
+			return out, err
+		}
+	}
+	return out, nil
 }
 
 // runMeshConn drives meshConn.Write with each size through a real tunnel
